@@ -37,6 +37,17 @@ CLAIMED = {
    "For each generated document every truncation offset is enumerated (a crash at any byte of the persisted image) plus overwritten xref/startxref ranges; the oracle requires SequentialScan to succeed whenever a complete object exists, every complete object to be listed at its true offset, not broken, and FileInfo.Read to yield the written value.",
    "Object extents come from strictpdf on the intact image. Documents are restricted as the quantifier says (no encryption, no object streams, no EOL bytes in strings or bodies). Streams whose indirect /Length object is cut off are compared byte-wise only when the extent is unambiguous.",
    "DESIGN.md section 4 C20"),
+
+ "C06": ("exploration",
+   "deterministic simulation of delivery schedules: seeded (filter, parameters, version, input) x write chunking x source short-read/EOF-with-data/(0,nil) schedule x consumer buffer sizes; decoder rebuilt via Info -> MakeFilter; chains through OpenStream on a simulated disk",
+   "Seeded search over the streaming state machines' call boundaries: partial rows in predictors, partial ASCII85 groups, pending RunLength runs, LZW/CCITT bit buffers are split across Write and Read calls by drawn schedules; the oracle is byte identity and reproduction of the effective parameters.",
+   "CCITTFax round-trips reliably only for Group 4 without EncodedByteAlign and with EndOfBlock; all other CCITT classes are recorded as known findings by parameter class (K class, ByteAlign, EndOfBlock), so any failure of another filter or of the good CCITT class is still a violation.",
+   "DESIGN.md section 4 C06"),
+ "C08": ("exploration",
+   "deterministic simulation with storage-corruption, cancellation and allocation-failure faults: seeded hostile (chain, parameters, body) cases, bit flips/splices/truncation, early Close at read k, drawn small membudget, testing/synctest bubble for exact goroutine-leak detection",
+   "Seeded search over hostile decoder inputs and consumer behaviours; oracles: no panic, every error IsMalformed, termination (step caps + wall-clock watchdog confirmed in a fresh process), allocation proxy, CCITT geometry cap, and no goroutine left durably blocked once the reader is closed or DecodeStream has failed (exact, via the synctest bubble).",
+   "Allocation is bounded by a TotalAlloc proxy, not by instrumenting the allocator; CPU-only hangs rely on the watchdog; the DCT/JBIG2 geometry caps are too large to drain per run.",
+   "DESIGN.md section 4 C08"),
 }
 
 PENDING = {}
@@ -84,7 +95,7 @@ def main():
     print("claimed:", sorted(CLAIMED), "n/a:", [x["property_id"] for x in na])
 
 PENDING = {p: "not claimed yet: the simulation harness for this property is still under construction (see DESIGN.md section 4); it is applicable and will be claimed once its check is sound on the unchanged tree" for p in
-           ["C04", "C05", "C06", "C08", "C11", "C15", "C16", "C18"]}
+           ["C04", "C05", "C11", "C15", "C16", "C18"]}
 
 if __name__ == "__main__":
     main()
